@@ -368,7 +368,9 @@ func (tb *LTable) Next(key LValue) (LValue, LValue) {
 					}
 				}
 			}
-			if tb.array == nil || index == len(tb.array) {
+			// index > len(tb.array) when the array part has shrunk (Remove) since key was returned:
+			// the array part is exhausted then, too
+			if tb.array == nil || index >= len(tb.array) {
 				if (tb.dict == nil || len(tb.dict) == 0) && (tb.strdict == nil || len(tb.strdict) == 0) {
 					return LNil, LNil
 				}
